@@ -127,7 +127,7 @@ def formats(F, rep):
     if len(disp) != 1:
         rep.unresolved("R4", "TaxPeriod-Display", f"{len(disp)} Display impls")
     for b in disp:
-        tb = Terms(F, b, inline_depth=0)
+        tb = Terms(F, b, inline_depth=2)
         for fc in format_calls(F, b, tb):
             parts = fc["parts"] or []
             shape = [(p[0], p[1] if p[0] == "lit" else None) for p in parts]
